@@ -191,11 +191,12 @@ def _gap_spans(text, rng, want_depth0, make):
 
 
 def backslash_joins(text, rng):
-    return _gap_spans(text, rng, True, lambda gap: rng.choice([" \\\n", "\\\n ", " \\\n        ", " \\\n\\\n "]) )
+    return _gap_spans(text, rng, True, lambda gap: rng.choice([" \\\n", "\\\n ", " \\\n        ", " \\\n\\\n ", " \\\n \t", "\\\n  \t "]) )
 
 
 def bracket_newlines(text, rng):
-    return _gap_spans(text, rng, False, lambda gap: rng.choice(["\n", "\n    ", " # c\n  ", "\n\n\t", "\n#x\n"]))
+    # (leading blanks of a continuation line are not indentation: a tab after a space is fine there)
+    return _gap_spans(text, rng, False, lambda gap: rng.choice(["\n", "\n    ", " # c\n  ", "\n\n\t", "\n#x\n", "\n \t", "\n  \t ", "\n \t# c\n \t\n\t \t"]))
 
 
 def spaces_between_tokens(text, rng):
